@@ -198,11 +198,47 @@ fn payloads_ok(input: &[u8], toks: &[BinaryToken]) -> Result<(), String> {
     Ok(())
 }
 
+/// an `Object` is what it says: up to its first `MixedContainer` marker (or its end) its body is a sequence of
+/// `key value` pairs — an even number of items, every key a plain token (not a container / End / marker).
+/// (An array retyped as an object with an odd number of body tokens is an unsound classification.)
+fn objects_ok(toks: &[BinaryToken]) -> Result<(), String> {
+    for (i, t) in toks.iter().enumerate() {
+        if let BinaryToken::Object(e) = t {
+            if *e <= i || *e >= toks.len() { continue; } // reported by structure_ok
+            let mut p = i + 1;
+            let mut items = 0usize;
+            let mut mixed = false;
+            while p < *e {
+                let is_key = items % 2 == 0;
+                match &toks[p] {
+                    BinaryToken::MixedContainer => { mixed = true; break; }
+                    BinaryToken::Array(x) | BinaryToken::Object(x) => {
+                        if is_key { return Err(format!("object at {}: container at {} in key position", i, p)); }
+                        if *x <= p || *x >= *e { break; } // reported by structure_ok
+                        p = *x + 1;
+                    }
+                    BinaryToken::End(_) => return Err(format!("object at {}: stray End at {}", i, p)),
+                    _ => p += 1,
+                }
+                items += 1;
+            }
+            if !mixed && items % 2 != 0 {
+                return Err(format!("object at {} has {} body items (a key without a value) and no MixedContainer marker", i, items));
+            }
+        }
+    }
+    Ok(())
+}
+
 /// L3 for C06 on one accepted tape
 fn oracle_wf(case: &str, input: &[u8], toks: &[BinaryToken], obs: &mut Obs) -> bool {
     let mut ok = true;
     if let Err(m) = structure_ok(toks) {
         obs.violation("bin-tape-structure", case, &m);
+        ok = false;
+    }
+    if let Err(m) = objects_ok(toks) {
+        obs.violation("bin-tape-object-pairs", case, &m);
         ok = false;
     }
     if let Err(m) = payloads_ok(input, toks) {
@@ -547,6 +583,38 @@ fn gen_inputs(g: &mut Gen, ops: &[&str], exhaustive_len: usize, n_sampled: usize
         for s in &out { for op in ops { emit_input(g, op, s); } }
         g.count(&format!("exhaustive-5-core-kinds-len-le-{}", deep));
     }
+    // 1c. the key KIND is a dimension of the fast paths: after `<key> = {` for every key kind, with the
+    //     container's first element drawn from {id, quoted, unquoted, i32, f32, `{`, `}`}, every tail over the
+    //     structural core {OPEN CLOSE EQUAL id I32 quoted} up to length 4 (5 in thorough):
+    //     (key kind x first element kind x next lexemes incl. `=`) is exhaustive
+    if exhaustive_len >= 4 {
+        let keys = [13usize, 7, 8, 5, 3, 12, 4, 9, 10, 6];   // id quoted unquoted i32 u32 i64 u64 f32 f64 bool
+        let firsts = [13usize, 7, 8, 5, 9, 0, 1];
+        let tail_alpha = [0usize, 1, 2, 13, 5, 7];
+        let tail_max = if g.thorough { 5 } else { 4 };
+        let mut tails: Vec<Vec<usize>> = vec![];
+        fn rec2(cur: &mut Vec<usize>, alpha: &[usize], maxlen: usize, out: &mut Vec<Vec<usize>>) {
+            out.push(cur.clone());
+            if cur.len() == maxlen { return; }
+            for &k in alpha { cur.push(k); rec2(cur, alpha, maxlen, out); cur.pop(); }
+        }
+        rec2(&mut vec![], &tail_alpha, tail_max, &mut tails);
+        let mut n = 0usize;
+        for &k in &keys {
+            for &f in &firsts {
+                for t in &tails {
+                    // quick: the full tail set for the four key kinds with a fast path, length <= 3 for the others
+                    if !g.thorough && ![13usize, 7, 8, 5].contains(&k) && t.len() > 3 { continue; }
+                    let mut p = vec![k, 2, 0, f];
+                    p.extend_from_slice(t);
+                    let b = seq_bytes(&p);
+                    for op in ops { emit_input(g, op, &b); }
+                    n += 1;
+                }
+            }
+        }
+        g.count(&format!("exhaustive-keykind-x-first-x-tail-le-{}:{}", tail_max, n));
+    }
     // 2. sampled longer sequences (length exhaustive_len+1 ..= 9)
     for _ in 0..n_sampled {
         let len = g.rng.range(exhaustive_len + 1, 9);
@@ -596,8 +664,8 @@ fn gen_inputs(g: &mut Gen, ops: &[&str], exhaustive_len: usize, n_sampled: usize
 /// C03 cases
 pub fn gen_c03(g: &mut Gen) {
     let exh = g.budget(4, 5);
-    let sampled = g.budget(20_000, 1_500_000);
-    let random = g.budget(12_000, 300_000);
+    let sampled = g.budget(10_000, 1_500_000);
+    let random = g.budget(10_000, 300_000);
     let docs = g.budget(3_000, 60_000);
     gen_inputs(g, &["btpair", "btape", "btapeU"][..1], exh, 0, 0, 0);
     gen_inputs(g, &["btpair", "btape", "btapeU"], 0, sampled, random, docs);
